@@ -69,6 +69,13 @@ class _SrcIter:
 
 # ---- element encoding ------------------------------------------------------------------------------------------
 
+# Variant runs of the same enumerated cases with other *classes* behind the same tokens.  'stopiter': the token 'U' (the user function's
+# failure, and the exception element no selector names) is a StopIteration object.  For every operator the sequential meaning is unchanged ("the prefix,
+# then that exception"); what Python adds is PEP 479: a StopIteration that leaves a generator frame arrives as a RuntimeError
+# whose __cause__ is that StopIteration - the stream still FAILS there, it never just ends early.
+VARIANT = {'stopiter': False}
+
+
 def make(x):
     """JSON token -> fresh Python object"""
     if isinstance(x, int):
@@ -81,7 +88,7 @@ def make(x):
         if x == 'K':
             return KeyError('K')
         if x == 'U':
-            return UserErr('U')
+            return StopIteration('U') if VARIANT['stopiter'] else UserErr('U')
         if x == 'T':
             return TypeError('T')
         raise ValueError(x)
@@ -95,6 +102,11 @@ def enc(x):
     if x is None:
         return 'N'
     if isinstance(x, BaseException):
+        if VARIANT['stopiter']:
+            if type(x) is RuntimeError and type(x.__cause__) is StopIteration:
+                x = x.__cause__           # PEP 479
+            if type(x) is StopIteration and x.args and x.args[0] == 'U':
+                return x.args[0]
         if isinstance(x, UserErr):
             return 'U'
         if type(x) is ValueError:
@@ -132,7 +144,7 @@ def f_wrap(x):
 
 def f_fail2(x):
     if type(x) is int and x == 2:
-        raise UserErr('U')
+        raise (StopIteration('U') if VARIANT['stopiter'] else UserErr('U'))
     return x
 
 
@@ -152,6 +164,10 @@ SEL = {'none': None, 'V': ValueError, 'K': KeyError, 'all': Exception, 'empty': 
 THREADED = ('buffer', 'parmap')
 
 
+def _sel(name):
+    return SEL[name]
+
+
 def build(stream, prog, sink):
     for op, a, b, n in prog:
         if op == 'map':
@@ -159,7 +175,7 @@ def build(stream, prog, sink):
         elif op == 'filter':
             stream.filter(PREDS[a])
         elif op == 'fexc':
-            stream.filter_exceptions(SEL[a], SEL[b])
+            stream.filter_exceptions(_sel(a), _sel(b))
         elif op == 'peek':
             stream.peek(print_func=sink.append, interval=1)
         elif op == 'head':
@@ -220,7 +236,7 @@ def run_iter(data_tokens, prog, want_pulls=True):
     except Exception as e:
         raised = enc(e)
         if raised in ('V', 'K'):  # filter_exceptions raises the very object that travelled in the stream
-            same = _contains(src.data, e)
+            same = _contains(src.data, e.__cause__ if (VARIANT['stopiter'] and type(e) is RuntimeError) else e)
     finally:
         close = getattr(it, 'close', None)
         if close is not None:
@@ -479,6 +495,7 @@ def _run_random(job, under_sched):
 
 def run_job(job):
     kind = job.get('kind', 'cases')
+    VARIANT['stopiter'] = job.get('variant') == 'stopiter'
     if kind == 'cases':
         return _run_cases(job, False)
     if kind == 'sched':
